@@ -238,7 +238,28 @@ def post_counted_prefix(minimum):
     return f
 
 
+def post_range_next(an, cb, t, pay):
+    # `for i in a..b`: Some(i) => a <= i < b
+    fn = an.fn
+    a = t['args'][0]
+    if not is_place(a):
+        return []
+    base = fn.canon({'l': a['pl']['l'], 'p': a['pl']['p'] + ['deref'], 'ty': ''})
+    if base['p']:
+        return []
+    sd = fn.single_def(base['l'])
+    if not sd or sd[2] != 'call' or not callee_name(sd[3]).endswith('IntoIterator>::into_iter') or not is_place(sd[3]['args'][0]):
+        return []
+    agg = an._range_agg(sd[3]['args'][0])
+    if not agg or agg[0] != 'Range':
+        return []
+    start, end = agg[1]
+    return [lt(lin(pay), end), le(start, lin(pay))]
+
+
 POSTS = {
+    'core::iter::range::<impl std::iter::Iterator for std::ops::Range<A>>::next': post_range_next,
+    'std::iter::range::<impl std::iter::Iterator for std::ops::Range<A>>::next': post_range_next,
     'rr::rdata::std13::validate_character_string': post_counted_prefix(1),
     'rr::rdata::opt::validate_option': post_counted_prefix(4),
     'rr::rdata::Rdata::read': post_rdata_read,
